@@ -102,4 +102,12 @@ func VH_C17_SID() {
 	o := NewConnData(&keychain.PrivKeyECDH{PrivKey: other}, sk.PubKey(), pwC, nil, nil, nil)
 	kO, _ := o.SID()
 	vAssert(!vIdealEq(kO[:], kS[:]), "a different client key derives the same key-based session id")
+	// the identifier follows the stored key: the server, re-paired with the
+	// other client, is where that client looks for it and no longer where
+	// the first client does
+	vAssert(s.SetRemote(other.PubKey()) == nil, "SetRemote failed")
+	kS2, err := s.SID()
+	vAssert(err == nil, "SID failed")
+	vAssert(vIdealEq(kS2[:], kO[:]), "after the stored remote key changed the session id is not the one the new peer derives")
+	vAssert(!vIdealEq(kS2[:], kS[:]), "different static-key secrets give the same session id (identifier did not follow the key)")
 }
